@@ -116,6 +116,12 @@ func normalise(m consensus.Message) consensus.Message {
 		c.Votes = nil
 		return &c
 	}
+	if x, ok := m.(*consensus.BlockPartMessage); ok && len(x.Part.Proof.Aunts) == 0 && x.Part.Proof.Aunts != nil {
+		c, p := *x, *x.Part
+		p.Proof.Aunts = nil // an empty list of aunts (single-part block) has one wire form
+		c.Part = &p
+		return &c
+	}
 	return m
 }
 
